@@ -27,27 +27,30 @@ type Ledger struct {
 
 // Session is one recorded scenario; field names are those read by spec/seq/Session.tla.
 type Session struct {
-	Op     string    `json:"op"` // "S"
-	Fam    string    `json:"fam"`
-	Comb   string    `json:"comb"`
-	N      int       `json:"n"`
-	Pred   []int     `json:"pred"`
-	Key    []int     `json:"key"`
-	CbFail int       `json:"cbfail"`
-	CbFired int      `json:"cbfired"`
-	Script [][][]int `json:"script"` // per source: steps [kind, val]
-	Calls  []Call    `json:"calls"`
-	Ret    *Call     `json:"ret,omitempty"` // reducers and xslices: the returned value
-	Outs   [][]int   `json:"outs"` // xslices: the whole result
-	Closed int       `json:"closed"`
-	Ledger []Ledger  `json:"ledger"`
-	Panic  string    `json:"panic"`
+	Op      string    `json:"op"` // "S"
+	Fam     string    `json:"fam"`
+	Comb    string    `json:"comb"`
+	N       int       `json:"n"`
+	Pred    []int     `json:"pred"`
+	Key     []int     `json:"key"`
+	CbFail  int       `json:"cbfail"`
+	CbFired int       `json:"cbfired"`
+	Script  [][][]int `json:"script"` // per source: steps [kind, val]
+	Calls   []Call    `json:"calls"`
+	Ret     *Call     `json:"ret,omitempty"` // reducers and xslices: the returned value
+	Outs    [][]int   `json:"outs"`          // xslices: the whole result
+	Closed  int       `json:"closed"`
+	Ledger  []Ledger  `json:"ledger"`
+	Panic   string    `json:"panic"`
 }
+
+// SrcIgnoreCtx: the sources of the sessions recorded from now on do not look at their context
+var SrcIgnoreCtx bool
 
 func mkSrcs(script [][]Step) []*Src {
 	out := make([]*Src, len(script))
 	for i, s := range script {
-		out[i] = &Src{Script: s}
+		out[i] = &Src{Script: s, IgnoreCtx: SrcIgnoreCtx}
 	}
 	return out
 }
@@ -199,7 +202,7 @@ type Reducer struct {
 	UsesN bool
 	Multi bool
 	HasCb bool
-	I     func(src []*Src, p Params) []int                            // iterator version (nil if none)
+	I     func(src []*Src, p Params) []int                               // iterator version (nil if none)
 	S     func(ctx context.Context, src []*Src, p Params) ([]int, error) // stream version
 }
 
